@@ -285,7 +285,15 @@ func exec[C any](s Spec[C], c C, o *Obs) (f *Failure) {
 		*o = *r.o
 		return r.f
 	case <-time.After(s.Deadline):
-		return Failf("hang", "case did not return within %v (normal cost is milliseconds); the call does not terminate", s.Deadline)
+	}
+	// only a suspicion so far: a loaded machine can starve a goroutine for seconds; a call that really
+	// loops never returns, so give the same call five more deadlines before calling it a hang
+	select {
+	case r := <-done:
+		*o = *r.o
+		return r.f
+	case <-time.After(5 * s.Deadline):
+		return Failf("hang", "case did not return within %v (normal cost is milliseconds); the call does not terminate", 6*s.Deadline)
 	}
 }
 
